@@ -74,8 +74,7 @@ Q_L_CHAINS = L_CHAINS[:5]
 Q_S_CHAINS = S_CHAINS[:8]
 Q_PUBKEYS = ["same", "mixed-shuffled", "one-different", "btc-different", "one-missing",
              "one-extra", "renamed-same-order", "paths-swapped", "key-not-on-curve"]
-T_PUBKEYS = Q_PUBKEYS + ["compressed", "reordered", "btc-missing", "renamed-order-changed",
-                         "btc-path-other-spelling"]
+T_PUBKEYS = Q_PUBKEYS + ["btc-missing", "renamed-order-changed", "btc-path-other-spelling"]
 Q_S_PUBKEYS = ["same", "mixed-shuffled", "one-different", "one-missing", "one-extra"]
 T_S_PUBKEYS = Q_S_PUBKEYS + ["renamed-same-order", "paths-swapped", "key-not-on-curve",
                              "empty-object", "no-file"]
